@@ -182,8 +182,11 @@ def tlc(module, cfg, files=None, workers=None, timeout=600, args=None, keep=None
             r.kind, r.violated = "invariant", _RE_INV.search(out).group(1)
         elif _RE_ACTP.search(out):
             r.kind, r.violated = "action", _RE_ACTP.search(out).group(1)
-        elif "Temporal properties were violated" in out:
+        elif "Temporal properties were violated" in out or re.search(r"Temporal property \w+ was violated", out):
             r.kind = "temporal"
+            m3 = re.search(r"Temporal property (\w+) was violated", out)
+            if m3:
+                r.violated = m3.group(1)
         elif "Deadlock reached" in out:
             r.kind = "deadlock"
         elif "Assumption" in out and "is false" in out:
